@@ -26,7 +26,7 @@ Lemma raw_all clock cfg ops : wf_pool1 clock cfg ops = true ->
    (stops_prompt (snd (fst cfg)) (pw0 clock [cfg]) (potr0 clock 1) ops = true -> po_c11 (fst (raw_flags clock cfg ops)) = true)).
 Proof.
   intro Hwf. destruct (wf_split _ _ _ Hwf) as [Hc Hh].
-  destruct (run_J (snd (fst cfg)) ops (pw0 clock [cfg]) (potr0 clock 1) false (Jop_init clock cfg Hc) Hh) as (H1 & H2 & H3).
+  destruct (run_J (snd (fst cfg)) (snd cfg) ops (pw0 clock [cfg]) (potr0 clock 1) false (Jop_init clock cfg Hc) Hh) as (H1 & H2 & H3).
   split; [exact H1|]. split; [exact H2|]. intro Hnd. destruct (H3 Hnd) as [H4 H5]. split; [exact H4|]. intro Hs. apply H5; [reflexivity | exact Hs].
 Qed.
 
